@@ -161,6 +161,11 @@ impl Tz {
         Tz
     }
 }
+impl Default for Tz {
+    fn default() -> Tz {
+        Tz::new()
+    }
+}
 impl Clone for Tz {
     fn clone(&self) -> Tz {
         Tz::new()
